@@ -74,8 +74,13 @@ func c03Pipeline(dir string, rng *RNG, idx int) (string, string, map[string]any)
 	var inputs []pipeInput
 	var ams []*amSchema
 	desc := map[string]any{}
+	if idx%4 == 3 {
+		// the intersection workload must not be lost to an unrelated loader error: one JSON Schema package next to the fixed one
+		npk = 1
+		formats = []string{"jsonschema"}
+	}
 	for i := 0; i < npk; i++ {
-		format := formats[i%3]
+		format := formats[i%len(formats)]
 		caps := capsFor(format)
 		am := genAM(newRNG("c03am", rng.U64(), i), caps, []string{"pka", "pkb", "pkc", "pkd"}[i], "general")
 		in, _ := materializeAM(filepath.Join(dir, "in"), am, format)
